@@ -445,6 +445,148 @@ def rule_file(ctx) -> RuleResult:
     return res
 
 
+def _key_prefix(expr):
+    """the constant head of a formatted key: f"Property:{name}" / "Property:" + name / "Property:%s" % name -> "Property:" """
+    if isinstance(expr, ast.JoinedStr) and expr.values and isinstance(expr.values[0], ast.Constant) and isinstance(expr.values[0].value, str) and len(expr.values) > 1:
+        return expr.values[0].value
+    if isinstance(expr, ast.BinOp) and isinstance(expr.op, ast.Add) and isinstance(expr.left, ast.Constant) and isinstance(expr.left.value, str):
+        return expr.left.value
+    if isinstance(expr, ast.BinOp) and isinstance(expr.op, ast.Mod) and isinstance(expr.left, ast.Constant) and isinstance(expr.left.value, str) and "%" in expr.left.value:
+        return expr.left.value.split("%", 1)[0] or None
+    if isinstance(expr, ast.Call) and isinstance(expr.func, ast.Attribute) and expr.func.attr == "format" and isinstance(expr.func.value, ast.Constant) \
+            and isinstance(expr.func.value.value, str) and "{" in expr.func.value.value:
+        return expr.func.value.value.split("{", 1)[0] or None
+    return None
+
+
+def _is_record(F, expr) -> bool:
+    """<concatenator>.get_concatenated_attributes(...): the attribute record of a concatenated entity (through aliases)"""
+    x = F.x(expr)
+    return isinstance(x, ast.Call) and name_of(x.func) == "get_concatenated_attributes"
+
+
+def _record_links(ctx):
+    """{key prefix: [(class that writes it, function)]}: the links `<record of the PARENT>[<prefix><name>] = ...` an entity writes
+    into its parent's concatenated attribute record when it is attached."""
+    out = {}
+    for fn in ctx.p.all_functions():
+        if fn.cls is None or not any(isinstance(n, ast.Call) and name_of(n.func) == "get_concatenated_attributes" for n in ast.walk(fn.node)):
+            continue
+        v = sem_view(ctx, fn)
+        F = None
+        for n in ast.walk(v.node):
+            if isinstance(n, ast.Call) and isinstance(n.func, ast.Attribute) and n.func.attr == "setdefault" and n.args:
+                F = F or Fx(v)
+                pre = _key_prefix(F.x(n.args[0]))
+                if pre and _is_record(F, n.func.value) and "parent" in F.xt(n.func.value):
+                    out.setdefault(pre, []).append((fn.cls, fn))
+            if isinstance(n, (ast.Assign, ast.AnnAssign)):
+                for t in (n.targets if isinstance(n, ast.Assign) else [n.target]):
+                    if isinstance(t, ast.Subscript):
+                        F = F or Fx(v)
+                        pre = _key_prefix(F.x(t.slice))
+                        if pre and _is_record(F, t.value) and "parent" in F.xt(t.value):
+                            out.setdefault(pre, []).append((fn.cls, fn))
+    return out
+
+
+def rule_concat(ctx) -> RuleResult:
+    res = RuleResult(
+        "C05.CONCAT",
+        "C05",
+        "Concatenator.remove_entity scrubs every reference to the removed entity on EVERY normal path of its kind: for a "
+        "concatenated data the rows of values (update_array_attribute(.., remove=True)) and the `<prefix><name>` link that the "
+        "data wrote into its parent's attribute record when it was attached (the deleting side agrees with the writing side); "
+        "for an object its children and its id in concatenated_object_ids; for a property group the parent's "
+        "remove_property_group; for all of them their own record (attributes_keys and concatenated_attributes['Attributes'])",
+        floor=5,
+    )
+    p = ctx.p
+    fn = sem_view(ctx, "Concatenator.remove_entity")
+    ent = param(fn, 0)
+    sn = fn.self_name
+    if ent is None or sn is None:
+        raise AnalysisError("C05.CONCAT: Concatenator.remove_entity has no entity parameter")
+    F = Fx(fn)
+    g = F.g
+    # the normal state of an opened concatenator: its tables are loaded
+    loaded = {}
+    for a in ("concatenated_attributes", "attributes_keys", "concatenated_object_ids"):
+        loaded[f"notnone:{sn}.{a}"] = True
+        loaded[f"truthy:{sn}.{a}"] = True
+
+    def every_path(kind, pred):
+        return g.exit not in F.reach([g.entry], ent, KindFacts(p, p.cls(kind), loaded), avoid=pred)
+
+    def removes_from(n, what):
+        """`<what>.remove(..)` / `.pop(..)` / `del <what>[..]` / a re-binding of `<what>` (filtered copy), `what` compared through aliases"""
+        for c in F.calls(n):
+            if isinstance(c.func, ast.Attribute) and c.func.attr in ("remove", "pop", "discard") and what(F.x(c.func.value)):
+                return True
+        if n.kind == "stmt" and isinstance(n.ast, ast.Delete):
+            return any(isinstance(t, ast.Subscript) and what(F.x(t.value)) for t in n.ast.targets)
+        if n.kind == "stmt" and isinstance(n.ast, (ast.Assign, ast.AnnAssign)):
+            return any(what(t) for t in (n.ast.targets if isinstance(n.ast, ast.Assign) else [n.ast.target]) if isinstance(t, ast.Attribute))
+        return False
+
+    def attr_of_self(name):
+        return lambda x: isinstance(x, ast.Attribute) and x.attr in (name, "_" + name) and unparse(x.value) == sn
+
+    def attributes_list(x):
+        return isinstance(x, ast.Subscript) and isinstance(x.slice, ast.Constant) and x.slice.value == "Attributes" \
+            and isinstance(x.value, ast.Attribute) and x.value.attr in ("concatenated_attributes", "_concatenated_attributes")
+
+    def deletes_link(prefix):
+        def pred(n):
+            if n.kind == "stmt" and isinstance(n.ast, ast.Delete):
+                for t in n.ast.targets:
+                    if isinstance(t, ast.Subscript) and _key_prefix(F.x(t.slice)) == prefix and _is_record(F, t.value):
+                        return True
+            for c in F.calls(n):
+                if isinstance(c.func, ast.Attribute) and c.func.attr == "pop" and c.args and _key_prefix(F.x(c.args[0])) == prefix and _is_record(F, c.func.value):
+                    return True
+            return False
+        return pred
+
+    def call_named(name, extra=lambda c: True):
+        return lambda n: F.has_call(n, lambda c: isinstance(c.func, ast.Attribute) and c.func.attr == name and extra(c))
+
+    def kw_true(c, key):
+        return any(k.arg == key and isinstance(k.value, ast.Constant) and k.value.value is True for k in c.keywords)
+
+    checks = []  # (kind, what (key text), predicate, message)
+    links = _record_links(ctx)
+    if not links:
+        raise AnalysisError("C05.CONCAT: no `<parent record>[<prefix><name>] = ...` link found on the attaching side (anchor ConcatenatedData.parent moved?)")
+    for prefix, writers in sorted(links.items()):
+        for K in sorted({k.name for k, _ in writers}):
+            checks.append((K, f"the parent's '{prefix}<name>' link deleted", deletes_link(prefix),
+                           f"{writers[0][1].qualname} writes '{prefix}<name>' into the parent's attribute record; a path of remove_entity for a {K} returns "
+                           "without deleting it: the parent keeps listing the removed entity (get_data_list, and on file after re-opening)"))
+    checks.append(("ConcatenatedData", "the rows of values removed (update_array_attribute(.., remove=True))",
+                   call_named("update_array_attribute", lambda c: kw_true(c, "remove") and c.args and F.xt(c.args[0]) == ent),
+                   "a path removes a concatenated data without deleting its rows in the concatenated arrays"))
+    checks.append(("ConcatenatedObject", "its children removed", call_named("remove_children", lambda c: F.xt(c.func.value) == ent),
+                   "a path removes a concatenated object without removing its children"))
+    checks.append(("ConcatenatedObject", "its id removed from concatenated_object_ids", lambda n: removes_from(n, attr_of_self("concatenated_object_ids")),
+                   "a path removes a concatenated object but keeps its id in the list of concatenated object ids"))
+    checks.append(("ConcatenatedPropertyGroup", "parent.remove_property_group(entity)",
+                   call_named("remove_property_group", lambda c: c.args and F.xt(c.args[0]) == ent),
+                   "a path removes a concatenated property group without detaching it from its parent"))
+    for K in ("ConcatenatedData", "ConcatenatedObject", "ConcatenatedPropertyGroup"):
+        checks.append((K, "its key removed from attributes_keys", lambda n: removes_from(n, attr_of_self("attributes_keys")),
+                       "a path leaves the removed entity's key in attributes_keys: its record is still found by get_concatenated_attributes"))
+        checks.append((K, "its record removed from concatenated_attributes['Attributes']", lambda n: removes_from(n, attributes_list),
+                       "a path leaves the removed entity's record in the concatenated attributes written to file"))
+    for K, what, pred, msg in checks:
+        present = any(pred(n) for n in g.nodes)
+        ok = present and every_path(K, pred)
+        res.inst(f"remove_entity, {K}: {what} on every normal path", nontrivial=True, ok=ok)
+        if not ok:
+            res.find("Concatenator", "remove_entity", f"{K}: a path without {what}" if present else f"{K}: never {what}", fn.where, msg)
+    return res
+
+
 C05_FILES = ("workspace/workspace.py", "objects/object_base.py", "shared/entity_container.py", "groups/property_group.py",
              "shared/concatenation/concatenator.py", "shared/concatenation/object.py", "groups/base.py")
 
@@ -487,4 +629,164 @@ def rule_oneshot(ctx) -> RuleResult:
     return res
 
 
-RULES = [rule_guard, rule_itermut, rule_sibling, rule_scrub, rule_file, rule_oneshot]
+# --------------------------------------------------------------------------------------------------------------------------
+# C05.SWEEP — "afterwards ... later operations on the survivors succeed": the writer's remove_entity opens
+# <project>/<ref_type> unconditionally, so every container name that can reach it must be one the file layout has (the
+# groups init_geoh5 creates under the project).  Property groups live under their object, not in a top-level container: a
+# sweep that hands "PropertyGroups" to the writer raises KeyError from the listing of the survivors.
+def _file_removal_container(c):
+    """Container argument of a call that removes a node through the writer: `X._io_call(H5Writer.remove_entity, uid, C, ..)`
+    or `H5Writer.remove_entity(file, uid, C, ..)`; None for any other call."""
+    f = c.func
+    if isinstance(f, ast.Attribute) and f.attr == "_io_call" and len(c.args) >= 3 and unparse(c.args[0]).endswith("H5Writer.remove_entity"):
+        return c.args[2]
+    if isinstance(f, ast.Attribute) and f.attr == "remove_entity" and unparse(f.value) in ("H5Writer", "cls") and len(c.args) >= 3:
+        return c.args[2]
+    return None
+
+
+def _returned_constants(p, fn, e, const_values):
+    """Constants a call `self.f(..)` / `cls.f(..)` / `f(..)` can return when every return of f is a constant (None returns
+    are left out: the kind -> container table itself is C05.FILE's clause); None when it cannot be told."""
+    from ..normalize import single_assignments
+
+    if isinstance(e, ast.Name):
+        e = single_assignments(fn.node).get(e.id, e)
+    if not isinstance(e, ast.Call):
+        return None
+    f, target = e.func, None
+    if isinstance(f, ast.Attribute) and isinstance(f.value, ast.Name) and fn.cls is not None:
+        owner = fn.cls if f.value.id in ("self", "cls", fn.self_name) else None
+        if owner is None:
+            r = p.resolve_name(fn.module, f.value.id)
+            owner = r[1] if r and r[0] == "class" else None
+        m = owner.lookup(f.attr) if owner is not None else None
+        if m and m[1] == "method":
+            target = m[2]
+    elif isinstance(f, ast.Name):
+        r = p.resolve_name(fn.module, f.id)
+        if r and r[0] == "func":
+            target = r[1]
+    if target is None:
+        return None
+    out = set()
+    for r in ast.walk(target.node):
+        if isinstance(r, ast.Return) and r.value is not None:
+            vs = const_values(r.value, target.node)
+            if vs is None:
+                return None
+            out |= {v for v in vs if v is not None}
+    return out or None
+
+
+def rule_sweep(ctx) -> RuleResult:
+    res = RuleResult(
+        "C05.SWEEP",
+        "C05",
+        "every container name that can reach H5Writer.remove_entity — a constant at the call, or the value a caller passes for "
+        "the parameter it is taken from, on a path the tests on that parameter leave open — is one of the groups init_geoh5 "
+        "creates directly under the project",
+        floor=3,
+    )
+    from ..cfg import CFG
+    from ..h5den import Den
+    from ..kinds import reach
+    from ..roles import const_values
+
+    p = ctx.p
+    W = p.cls("H5Writer")
+    init = ctx.view(W.methods["init_geoh5"])
+    d = Den(init, p)
+    layout = set()
+    for c in ast.walk(init.node):
+        if isinstance(c, ast.Call) and isinstance(c.func, ast.Attribute) and c.func.attr in ("create_group", "require_group") and c.args:
+            for path in d.paths(c):
+                if len(path) == 2 and path[0] == ("PROJECT",) and path[1][0] == "const":
+                    layout |= set(path[1][1])
+    if len(layout) < 3:
+        raise AnalysisError(f"C05.SWEEP: init_geoh5 creates {sorted(layout)} under the project: layout not recognised")
+    funcs = [f for f in p.all_functions() if f.cls is None or f.cls is not W]
+    graphs = {}
+
+    def reaching(f0, q, call, depth):
+        """({value: origin} that reach `call` inside f0 for its parameter q, {value: origin} that the tests on q keep away)."""
+        if depth > 3:
+            raise AnalysisError(f"C05.SWEEP: container parameter of {f0.qualname} forwarded through more than 3 functions")
+        fv = ctx.view(f0)
+        slot = fv.params.index(q) - (1 if fv.kind in ("method", "classmethod") else 0)
+        passed = {}
+        for caller in funcs:
+            cv = None
+            for cc0 in ast.walk(caller.node):
+                if not (isinstance(cc0, ast.Call) and ((isinstance(cc0.func, ast.Attribute) and cc0.func.attr == f0.name) or (isinstance(cc0.func, ast.Name) and cc0.func.id == f0.name))):
+                    continue
+                a = next((k.value for k in cc0.keywords if k.arg == q), cc0.args[slot] if len(cc0.args) > slot else None)
+                if a is None:
+                    continue
+                vs = const_values(a, caller.node)
+                if vs is None:
+                    vs = _returned_constants(p, caller, a, const_values)
+                if vs is not None:
+                    for v in vs:
+                        passed.setdefault(v, f"{caller.qualname}:{cc0.lineno}")
+                elif isinstance(a, ast.Name) and a.id in caller.params:
+                    if caller.node is f0.node and a.id == q:
+                        continue  # recursion handing the parameter on
+                    up, _ = reaching(caller, a.id, cc0, depth + 1)
+                    for v, at in up.items():
+                        passed.setdefault(v, at)
+                else:
+                    raise AnalysisError(f"C05.SWEEP: {caller.qualname}:{cc0.lineno} passes a container that is not a constant to {f0.name}")
+        if not passed:
+            raise AnalysisError(f"C05.SWEEP: no caller of {f0.qualname} found for its container parameter {q}")
+        # the call may sit in the view (helpers expanded) or in the function as written: locate it in whichever graph has it
+        for node in (fv.node, f0.node):
+            g = graphs.setdefault(id(node), CFG(node))
+            site = [n for n in g.nodes if n.ast is not None and not isinstance(n.ast, list) and n.kind != "with" and any(x is call for x in ast.walk(n.ast))]
+            if site:
+                break
+        else:
+            raise AnalysisError(f"C05.SWEEP: call at line {call.lineno} of {f0.qualname} not found in its flow graph")
+        yes, no = {}, {}
+        for v, at in passed.items():
+            seen = reach(g, [g.entry], q, {"const:" + q: v})
+            (yes if any(n in seen for n in site) else no)[v] = at
+        return yes, no
+
+    for fn0 in funcs:
+        if not any(isinstance(c, ast.Call) and _file_removal_container(c) is not None for c in ast.walk(fn0.node)):
+            continue
+        fn = ctx.view(fn0)
+        owner = fn.cls.name if fn.cls else fn.module.short
+        g = None
+        for c in [x for x in ast.walk(fn.node) if isinstance(x, ast.Call)]:
+            arg = _file_removal_container(c)
+            if arg is None:
+                continue
+            where = f"{fn.module.relpath}:{c.lineno}"
+            vals = const_values(arg, fn.node)
+            if vals is None:
+                vals = _returned_constants(p, fn, arg, const_values)
+            if vals is not None:
+                bad = sorted(str(v) for v in vals if v not in layout)
+                res.inst(f"{owner}.{fn.name}:{c.lineno} removes from {sorted(map(str, vals))}", nontrivial=True, ok=not bad)
+                for v in bad:
+                    res.find(owner, fn.name, f"writer removal from container '{v}' that the file layout does not have", where,
+                             f"H5Writer.remove_entity opens <project>/{v}: KeyError, the operation on the survivors fails")
+                continue
+            if isinstance(arg, ast.Name) and arg.id in fn.params:
+                open_vals, shut_vals = reaching(fn0, arg.id, c, 0)
+                for v, at in sorted(open_vals.items(), key=lambda kv: str(kv[0])):
+                    ok = v in layout
+                    res.inst(f"{owner}.{fn.name}:{c.lineno} container '{v}' (from {at}) reaches the writer", nontrivial=True, ok=ok)
+                    if not ok:
+                        res.find(owner, fn.name, f"writer removal from container '{v}' that the file layout does not have", where,
+                                 f"{at} passes '{v}', H5Writer.remove_entity opens <project>/{v}: KeyError, the operation on the survivors fails")
+                for v, at in sorted(shut_vals.items(), key=lambda kv: str(kv[0])):
+                    res.inst(f"{owner}.{fn.name}:{c.lineno} container '{v}' (from {at}) does not reach the writer", nontrivial=True, ok=True)
+                continue
+            raise AnalysisError(f"C05.SWEEP: container argument {unparse(arg)[:40]} of the removal at {where} is neither a constant nor a parameter")
+    return res
+
+
+RULES = [rule_guard, rule_itermut, rule_sibling, rule_scrub, rule_file, rule_oneshot, rule_concat, rule_sweep]
